@@ -252,3 +252,7 @@ def check(P, R, tier):
     R.explanation = EXPLANATION
     R.assumptions = ["eventual delivery / peers answering is a liveness assumption, not decided", "store semantics: C16"]
     rules(P, R)
+    # parked blocks resume through Store::notify_read: every waiter of a key must be woken by the write of that key, also
+    # when several blocks wait for the same parent (C16.T3/T4)
+    from ..common import fold
+    fold(R, P, "c16", ("C16.T2", "C16.T3", "C16.T4"), "C07.Y7", 10)
